@@ -6,11 +6,23 @@ from rtamt.exception.exception import RTAMTException
 
 class StlHorizon(LtlHorizon, StlAstVisitor):
 
-    def __init__(self):
+    def __init__(self, sample=1):
         LtlHorizon.__init__(self)
+        # one sampling period, in the unit of the bounds
+        self.sample = sample
 
     def visit(self, node, *args, **kwargs):
         return StlAstVisitor.visit(self, node, *args, **kwargs)
+
+    def visitNext(self, node, *args, **kwargs):
+        op_horizon = self.visit(node.children[0], *args, **kwargs) + self.sample
+        self.horizons[node] = op_horizon
+        return op_horizon
+
+    def visitStrongNext(self, node, *args, **kwargs):
+        op_horizon = self.visit(node.children[0], *args, **kwargs) + self.sample
+        self.horizons[node] = op_horizon
+        return op_horizon
 
     def visitTimedEventually(self, node, *args, **kwargs):
         op_horizon = self.visit(node.children[0], *args, **kwargs)
